@@ -274,12 +274,18 @@ def prog_tie_job(items):
             return [{'name': 'chunk', 'broken': msg}]
         rc, fo, fe = run_cmd([_T.hv, 'c07front'], d, ('\n'.join(sx) + '\n').encode())
         fstat = {}
+        hyp = {}
         for l in fo.decode('latin-1').split('\n'):
             w = l.split(' ', 2)
             if len(w) == 3 and w[0] == 'FRONT':
                 fstat[w[1]] = w[2]
+            elif len(w) == 3 and w[0] == 'HYP':
+                hyp[w[1]] = dict(kv.split('=') for kv in w[2].split())
         for i, (name, p, inputs) in enumerate(items):
             r = {'name': name, 'tie': None, 'front': None, 'broken': None, 'x': xcommon.to_x(p).decode('latin-1'), 'model': None, 'judged': False}
+            # the hypotheses of C07_front_preserves_partial (extracted), for the programs the front-end model accepts
+            if fstat.get(sx[i]) == 'ok' and sx[i] in hyp:
+                r['hyp'] = {k: v == '1' for k, v in hyp[sx[i]].items()}
             m = mt.get(sx[i])
             if m is None:
                 r['broken'] = 'c07tree printed nothing'
@@ -393,6 +399,20 @@ def whole_program_tie(ck, pool, n):
     ck.cov['whole_programs_model_status'] = model_stat
     ck.cov['whole_programs_tree_dump_mismatches'] = nt
     ck.cov['whole_programs_front_vs_source_under_xsem'] = front
+    # how much of this population the proved whole-program theorem covers: a program outside the hypotheses is not a
+    # violation, only a number (it rests on the oracle alone)
+    hyps = {}
+    for label, sel in (('shipped_tests_x', lambda n: n.startswith('tests/x/')), ('generated_xgen', lambda n: n.startswith('xgen-')),
+                       ('directed', lambda n: n.startswith('directed/'))):
+        rs = [r for r in res if sel(r['name']) and r.get('hyp') is not None]
+        fail = sorted((r['name'], [k for k, v in sorted(r['hyp'].items()) if not v]) for r in rs if not all(r['hyp'].values()))
+        hyps[label] = {'accepted_by_front_model': len(rs), 'names_ok': sum(1 for r in rs if r['hyp'].get('names_ok')),
+                       'front_swap_safe': sum(1 for r in rs if r['hyp'].get('swap_safe')),
+                       'both': len(rs) - len(fail), 'failing': [{'name': n, 'fails': f} for n, f in fail]}
+    ck.cov['front_preserves_hypotheses'] = hyps
+    ck.log('hypotheses of C07_front_preserves_partial (names_ok, front_swap_safe): ' + '; '.join(
+        '%s %d/%d%s' % (k, v['both'], v['accepted_by_front_model'], (' (outside: %s)' % ', '.join(x['name'] for x in v['failing'][:6])) if v['failing'] else '')
+        for k, v in hyps.items()))
     ck.log('whole-program tie: %d programs judged, %d mismatches, model status %s, XSem(front p) vs XSem(p): %s' % (judged, nt, model_stat, front))
 
 
